@@ -6,7 +6,7 @@ Import ListNotations.
 Open Scope Z_scope.
 
 Section W.
-  Variable fixed : bool.
+  Variable fixed : fixes.
   Variable lods : list lod.
   Variable by_ : list Z.
   Variable by_s : bool.
@@ -162,7 +162,7 @@ Section W.
     assert (L : length (st_of (do_pass' (st, hm, qi, cols) hw)) = length (abs (st_of (do_pass' (st, hm, qi, cols) hw))))
       by (unfold abs; rewrite map_length; reflexivity).
     rewrite E in L. unfold a_pad in L. rewrite map_length in L.
-    pose proof (a_fold_length (if fixed then cols else qi) (length (fst hw)) (map rkey (pass_flat' qi)) (abs st)) as F.
+    pose proof (a_fold_length (if f_pad fixed then cols else qi) (length (fst hw)) (map rkey (pass_flat' qi)) (abs st)) as F.
     rewrite map_length in F. unfold abs in F at 2. rewrite map_length in F.
     pose proof (pass_limit qi) as P. simpl st_of at 2.
     replace (Z.of_nat (length (hw :: hws))) with (1 + Z.of_nat (length hws)) by (simpl length; lia). lia.
